@@ -331,10 +331,21 @@ def case_input(c):
         viol.append({'site': site, 'failure': failure, 'detail': detail})
     res = {'viol': viol, 'n': 0, 'traces': 0, 'transitions': 0, 'state_keys': set(), 'ambiguous': 0}
     wd = engine.workdir()
-    stem_in = os.path.join(wd, 'c14in_%s' % engine.sha(c))
-    stem_out = os.path.join(wd, 'c14out_%s' % engine.sha(c))
+    # stems contain a dot (a legal and common naming, e.g. "scan.4bit"): nothing may derive a file name by cutting at it
+    stem_in = os.path.join(wd, 'c14in_%s.v1' % engine.sha(c))
+    stem_out = os.path.join(wd, 'c14out_%s.v1' % engine.sha(c))
     seed = 31 + c['seed']
     try:
+        # file-side history, made deterministic: the same input stem first holds ANOTHER recording (other blocks-per-file,
+        # block count and bit depth), which the library's readers are asked about; then the input under test is written
+        try:
+            from setigen.voltage import raw_utils
+            c0 = dict(c, layout=[5, 5] if c['layout'][1] != 5 else [4, 1], bits=8 if c['bits'] == 4 else 4, aligned=not c['aligned'])
+            write_input(c0, stem_in, seed + 1)
+            raw_utils.get_blocks_per_file(stem_in); raw_utils.get_total_blocks(stem_in); raw_utils.get_raw_params(stem_in)
+            raw_utils.read_header(stem_in + '.0000.raw')
+        except Exception:
+            pass
         in_blocks, bpf_in, ncards, blocsize = write_input(c, stem_in, seed)
         r = c['T'] // M
         n_in = len(in_blocks)
